@@ -40,8 +40,8 @@ def make(evs):
         those of the DML statements in the bodies of reachable triggers):
         chain3    a reachable (table, timing, event) has at least three triggers of which at least two were created
                   with FOLLOWS / PRECEDES;
-        innerset  a reachable BEFORE INSERT / UPDATE trigger's body holds an INSERT / UPDATE on a table whose own
-                  BEFORE trigger of that event assigns NEW."""
+        innerset  a reachable trigger's BEGIN .. END body holds an INSERT / UPDATE on a table whose own BEFORE trigger of
+                  that event assigns NEW, and the trigger is a BEFORE trigger or the body goes on reading OLD / NEW."""
         trigs = sch.get(ev["h"], {}).get("trigs", [])
         reach, todo = set(), [(ev["stmt"]["t"], ev["stmt"]["k"])]
         while todo:
@@ -58,12 +58,13 @@ def make(evs):
                 g = [t for t in trigs if t["table"] == tb and t["event"] == evn and t["timing"] == tm]
                 if len(g) >= 3 and sum(1 for t in g if t["rel"]) >= 2:
                     out.add("chain3")
-            if evn in ("insert", "update"):
-                for p in [t for t in trigs if t["table"] == tb and t["event"] == evn and t["timing"] == "before"]:
-                    for b in p["body"]:
-                        if b["k"] in ("ins", "upd") and any(q["table"] == b["t"] and q["event"] == EV[b["k"]] and q["timing"] == "before"
-                                                             and any(x["k"] == "set" for x in q["body"]) for q in trigs):
-                            out.add("innerset")
+            for p in [t for t in trigs if t["table"] == tb and t["event"] == evn]:
+                for j, b in enumerate(p["body"]):
+                    inner = b["k"] in ("ins", "upd") and any(q["table"] == b["t"] and q["event"] == EV[b["k"]] and q["timing"] == "before"
+                                                             and any(x["k"] == "set" for x in q["body"]) for q in trigs)
+                    # (a single-statement body is not a block; in an AFTER trigger only the statements after the DML are affected)
+                    if inner and len(p["body"]) > 1 and (p["timing"] == "before" or any(x["k"] != "uvar" for x in p["body"][j + 1:])):
+                        out.add("innerset")
         return ",".join(sorted(out))
 
     def sig(m, ev):
@@ -181,7 +182,7 @@ def check(tier):
                       "statements adding several audit entries": (ex.get("statements_with_several_audit_rows", 0), 60),
                       "triggers with FOLLOWS / PRECEDES": (ex.get("triggers_with_follows_or_precedes", 0), 8),
                       "SET NEW triggers": (sum(n for k, n in bodies.items() if k.endswith(" set")), 4),
-                      "SIGNAL failures": (kinds.get("err:signal", 0), 10), "directly compared steps": (a["direct_compared"], 100),
+                      "SIGNAL failures": (kinds.get("err:signal", 0), 3), "directly compared steps": (a["direct_compared"], 100),
                       "triggers whose body writes another table": (ex.get("cascading_triggers", 0), 15),
                       "body DML statements that are not the last statement": (ex.get("body_dml_statements_not_last", 0), 8),
                       "statements whose cascade fired another table's triggers": (ex.get("statements_whose_cascade_fired_other_tables_triggers", 0), 25)}
